@@ -99,6 +99,7 @@ class Interp:
         self.E, self.ctx = engine, ctx
         self.depth = 0
         self.call_stack = []
+        self.fn_stack = []
 
     # ------------------------------------------------------------------ helpers
     def outside(self, msg, node=None):
@@ -250,6 +251,7 @@ class Interp:
             env.vars["$yield"] = []
         self.depth += 1
         self.call_stack.append(qual)
+        self.fn_stack.append(fnode)
         try:
             self.exec_block(fnode.body, env, module, cls)
             ret = None
@@ -258,6 +260,7 @@ class Interp:
         finally:
             self.depth -= 1
             self.call_stack.pop()
+            self.fn_stack.pop()
         if "$yield" in env.vars:
             return env.vars["$yield"]
         return ret
@@ -508,9 +511,14 @@ class Interp:
         self.exec_block(st.orelse, env, module, cls)
 
     def loop_spec(self, st):
-        if not self.call_stack:
+        if not self.call_stack or not self.E.loop_invariants:
             return None
-        return self.E.loop_invariants.get((self.call_stack[-1], st.lineno)) or self.E.loop_invariants.get((self.call_stack[-1], getattr(st, "_ordinal", None)))
+        q = self.call_stack[-1]
+        if not any(k[0] == q for k in self.E.loop_invariants):
+            return None
+        fnode = self.fn_stack[-1]
+        loops = sorted([n for n in ast.walk(fnode) if isinstance(n, (ast.For, ast.While))], key=lambda n: (n.lineno, n.col_offset))
+        return self.E.loop_invariants.get((q, loops.index(st)))
 
     def x_For(self, st, env, module, cls):
         it = self.force(self.eval(st.iter, env, module, cls))
@@ -534,7 +542,11 @@ class Interp:
             if not ok:
                 self.outside("bare raise outside handler", st)
             raise PyRaise(cur)
-        e = self.force(self.eval(st.exc, env, module, cls))
+        self.in_raise = getattr(self, "in_raise", 0) + 1
+        try:
+            e = self.force(self.eval(st.exc, env, module, cls))
+        finally:
+            self.in_raise -= 1
         if isinstance(e, (ClassRef, BuiltinClass)):
             e = self.call(e, [], {}, st)
         if st.cause is not None:
@@ -820,6 +832,8 @@ class Interp:
         return v
 
     def e_JoinedStr(self, e, env, module, cls):
+        if getattr(self, "in_raise", 0):
+            return self.fresh("excmsg", "str")     # text of exception messages is not modelled (DESIGN.md 2.2)
         parts = []
         for v in e.values:
             if isinstance(v, ast.Constant):
